@@ -187,7 +187,7 @@ _p('C04', 'exploration',
    design_ref='DESIGN.md 3/C04', expected_probes=['probe', 'ambiguous-provided', 'overwrite'])
 
 _p('C05', 'exploration',
-   [Part('registry', {'props': ['C05'], 'shape': 'dynamic'}, configs=REG_CFG, quick=7000, thorough=200000, name='registry/C05', timeout=40.0)],
+   [Part('registry', {'props': ['C05'], 'shape': 'dynamic'}, configs=REG_CFG, quick=7000, thorough=130000, name='registry/C05', timeout=40.0)],
    rule='one case = one seeded history (8-36 ops) mixing every mutation kind (register/unregister/subscribe/unsubscribe on the registry or a base, '
         'rebuild, registry __bases__, __bases__ of required interfaces, class and instance declarations) with lookups through all nine entry points '
         'over a small key pool, plus gc / permute / drop-registry faults; at probe points every key is asked on the warm registries and on a cold '
@@ -250,9 +250,9 @@ _p('C09', 'exploration',
    technique='deterministic simulation: seeded bookkeeping histories vs model dict + rebuild/replay equivalence',
    design_ref='DESIGN.md 3/C09', expected_probes=['overwrite', 'identical-re-registration', 'register-None', 'last-entry-of-arity-removed', 'replay-into-empty'])
 
-PROPS['C05'].parts.append(Part('registry', {'props': ['C05'], 'shape': 'specdyn'}, configs=[(C, 2), (PY, 2)], quick=3000, thorough=100000,
+PROPS['C05'].parts.append(Part('registry', {'props': ['C05'], 'shape': 'specdyn'}, configs=[(C, 2), (PY, 2)], quick=3000, thorough=70000,
                                name='registry/C05/specs', timeout=40.0))
-PROPS['C05'].parts.append(Part('registry', {'props': ['C05'], 'shape': 'chain'}, configs=[(C, 2), (PY, 2)], quick=3000, thorough=80000,
+PROPS['C05'].parts.append(Part('registry', {'props': ['C05'], 'shape': 'chain'}, configs=[(C, 2), (PY, 2)], quick=3000, thorough=50000,
                                name='registry/C05/chains', timeout=40.0))
 
 
